@@ -163,6 +163,13 @@ def macro_pairs():
     a = el('div', el('y', {'tag': 'u', 'children': [], 'use_macro': 'lib'}, **caller_kw), T('after'))
     b = el('div', el('y', el('article', T('lib-text'), el('img', static=[['alt', 'L']], i18n_attributes='alt')), **caller_kw), T('after'))
     out.append(('whole-template-under-settings', a, b, [], {'target_language': 'de', 'lib': lib}))
+    # 3c a slot inside an i18n:name block of a translated macro body: the filler's markup belongs to the mapping
+    mname = el('p', 'Hello ', el('b', el('i', 'd', define_slot='s'), i18n_name='n'), '!', define_macro='m', i18n_translate='')
+    a = el('div', hide(mname), '[', {'tag': 'u', 'children': [el('i', 'F', fill_slot='s')], 'use_macro': "macros['m']"}, '][',
+           {'tag': 'u', 'children': [], 'use_macro': "macros['m']"}, ']')
+    bname = lambda inner: el('p', 'Hello ', el('b', inner, i18n_name='n'), '!', i18n_translate='')      # noqa: E731
+    b = el('div', hide(bname(el('i', 'd'))), '[', bname(el('i', 'F')), '][', bname(el('i', 'd')), ']')
+    out.append(('slot-inside-name-block', a, b, [], {}))
     # 4 filler with i18n:attributes and a computed target at the call site (macro without a context of its own)
     macro4 = el('p', T('in-macro'), el('x', el('b', T('slot-default'), define_slot='s'), T('in-macro-2'),
                                        i18n_domain='md', i18n_target="'fr'"), define_macro='m')
